@@ -330,6 +330,36 @@ func checkC15(c *Ctx) {
 			c.bad("C15.clone", construct, "the wrapper does not call it", p.fnPos(f))
 		}
 	}
+	// hash.Hash: "Sum appends the current hash to b ... It does not change the underlying hash state"
+	{
+		n := 0
+		var fs []*ssa.Function
+		for f := range p.AllFuncs {
+			if f.Blocks != nil && isCirclFunc(f) && sourceFunc(f) && f.Name() == "Sum" && f.Signature.Recv() != nil && !strings.Contains(funcPkgPath(f), "/internal/test") {
+				fs = append(fs, f)
+			}
+		}
+		sort.Slice(fs, func(i, j int) bool { return fs[i].String() < fs[j].String() })
+		for _, f := range fs {
+			n++
+			var ws []string
+			for _, w := range p.Mod().of(f) {
+				if w.Root == "param#0" {
+					ws = append(ws, fmt.Sprintf("%s (%s)", p.pos(w.Pos), w.Via))
+				}
+			}
+			construct := fname(f) + ": Sum leaves the state it is called on unchanged (it pads and squeezes a copy)"
+			if len(ws) > 0 {
+				sort.Strings(ws)
+				c.bad("C15.clone", construct, "the receiver is written: "+strings.Join(ws, "; "), p.fnPos(f))
+			} else {
+				c.ok("C15.clone", construct, "mod-set does not contain the receiver", p.fnPos(f))
+			}
+		}
+		if n == 0 {
+			c.undecided("C15.clone", "Sum methods", "none found", "")
+		}
+	}
 	// reset
 	c.resetRule(p, "internal/sha3", "State", []string{"Write", "Read"}, map[string]string{
 		"storage": "the buffer contents outside [bufo, bufe) are dead; Reset empties the window",
